@@ -569,7 +569,39 @@ func consumerOps() []op {
 			return fmt.Sprintf("SELECT w.id AS k FROM tumble(source=>TABLE(%s), window_length=>INTERVAL 10 SECONDS, time_field=>DESCRIPTOR(ts)) w", x.table)
 		}, val: 110},
 	}
+	// LIMIT n subqueries whose n-th (last admitted) row, or the row before it, makes the consumer
+	// fail: the Limit node stops its source with a sentinel error right after handing the n-th row
+	// up, so a consumer error on exactly that row must not be mistaken for the sentinel. Rows come
+	// out in file order, so the n-th row has id n-1.
+	for _, n := range []int{1, 3, 64, 100, nRows} {
+		n := n
+		inners = append(inners, inner{name: fmt.Sprintf("limit-%d/fail-at-row-%d(the-limit-th)", n, n), sql: func(x src) string {
+			return fmt.Sprintf("SELECT b.id AS k FROM %s b LIMIT %d", x.table, n)
+		}, val: n - 1})
+		if n > 1 {
+			inners = append(inners, inner{name: fmt.Sprintf("limit-%d/fail-at-row-%d(one-before)", n, n-1), sql: func(x src) string {
+				return fmt.Sprintf("SELECT b.id AS k FROM %s b LIMIT %d", x.table, n)
+			}, val: n - 2})
+		}
+	}
 	var out []op
+	for _, n := range []int{1, 3, 64, 100, nRows} {
+		n := n
+		for _, d := range []int{0, 1} {
+			d := d
+			if n-1-d < 0 {
+				continue
+			}
+			out = append(out,
+				op{name: fmt.Sprintf("consumer-where/over-cte-limit-%d/fail-at-row-%d", n, n-d), consumer: true, swallower: never, sql: func(x src) string {
+					return fmt.Sprintf("WITH x AS (SELECT b.id AS k FROM %s b LIMIT %d) SELECT k FROM x WHERE %s", x.table, n, cpred(x, "k", n-1-d, false))
+				}},
+				op{name: fmt.Sprintf("consumer-select-list/over-cte-limit-%d/fail-at-row-%d", n, n-d), consumer: true, swallower: never, sql: func(x src) string {
+					return fmt.Sprintf("WITH x AS (SELECT b.id AS k FROM %s b LIMIT %d) SELECT k, %s AS p FROM x", x.table, n, cpred(x, "k", n-1-d, false))
+				}},
+			)
+		}
+	}
 	for _, in := range inners {
 		in := in
 		col := func(x src) string {
